@@ -580,8 +580,12 @@ class SsbGraphMinimizer:
                             for loop_edge in break_points:
                                 break_point = loop_edge.source_vertex
                                 break_target = loop_edge.target_vertex
-                                if not isinstance(break_point["op"], SsbLabelJump) or break_point["op"].get_marker():
-                                    # Already has a marker, add a new opcode in between
+                                if (
+                                    not isinstance(break_point["op"], SsbLabelJump)
+                                    or break_point["op"].get_marker()
+                                    or break_point["op"].root.op_code.name != OP_JUMP
+                                ):
+                                    # Already has a marker or is not a jump, add a new opcode in between
                                     loop_edge_flow_level = loop_edge["flow_level"]
                                     actual_break_point = g.add_vertex(
                                         label=None,
@@ -613,6 +617,7 @@ class SsbGraphMinimizer:
                                 if (
                                     not isinstance(continue_point["op"], SsbLabelJump)
                                     or continue_point["op"].get_marker()
+                                    or continue_point["op"].root.op_code.name != OP_JUMP
                                 ):
                                     # Already has a marker or is not a jump, add a new opcode in between
                                     loop_edge_flow_level = loop_edge["flow_level"]
